@@ -119,6 +119,34 @@ def run(tier, seed):
             meta[cid] = (i, cpu, big, rule, modelled, src)
             opt = " optimize=1" if CARRIERS.index((cpu, tmpl, big, rule, modelled)) in OPTIMIZE else ""
             cases.append((cid, "imgmax=8192" + opt, src))
+    # branch family: every `L: insn ..., L` form of tests/comparison (45 CPUs) with a forward reference over a gap of
+    # 0 / 100 / 300 / 40000 / 200000 bytes and a backward reference back over it; the probes behind the labels show
+    # whether an instruction changed its size between the passes (no size rule is modelled: here = bound is the clause)
+    import re
+    from .. import codec as K
+    cpuinfo = {c["name"]: c for c in K.cpu_list(vdir)}
+    forms = {}
+    for cpu, text in K.corpus(set(cpuinfo)):
+        m = re.match(r"^([A-Za-z_]\w*):\s*(.+)$", text)
+        if m and re.search(r"(?<![\w.$])%s(?![\w])" % re.escape(m.group(1)), m.group(2)):
+            t = re.sub(r"(?<![\w.$])%s(?![\w])" % re.escape(m.group(1)), "{X}", m.group(2))
+            if t not in forms.setdefault(cpu, []):
+                forms[cpu].append(t)
+    bprog = [{"k": "insn", "r": {"s": "fwd"}}, {"k": "label", "n": "after"}, {"k": "data", "sz": 0}, {"k": "label", "n": "fwd"},
+             {"k": "insn", "r": {"s": "after"}}, {"k": "label", "n": "aft2"}]
+    bmeta = {}
+    for cpu, ts in sorted(forms.items()):
+        pick = ts if tier == "thorough" else ts[:4] + rnd.sample(ts[4:], max(0, min(8, len(ts) - 4)))
+        for ti, t in enumerate(pick):
+            for gap in (0, 100, 300, 40000, 200000):
+                cid = "b.%s.%d.%d" % (cpu, ts.index(t), gap)
+                lines = [".%s" % cpu, ".org 0x1000", "  " + t.replace("{X}", "fwd"), "after:", ".dc32 $, after, 0x%x" % MARK]
+                if gap:
+                    lines.append(".resb %d" % gap)
+                lines += ["fwd:", ".dc32 $, fwd, 0x%x" % MARK, "  " + t.replace("{X}", "after"), "aft2:", ".dc32 $, aft2, 0x%x" % MARK]
+                src = "\n".join(lines) + "\n"
+                bmeta[cid] = (cpu, t, gap, src)
+                cases.append((cid, "imgmax=8192", src))
     obs = C.conform_parallel(vdir, "asm", cases, rd, "c02")
     byid = {o["case"]: o for o in obs}
     if len(byid) != len(cases):
@@ -142,6 +170,19 @@ def run(tier, seed):
             accepted[cpu] = accepted.get(cpu, 0) + 1
         events.append({"id": cid, "prog": progs[i], "rule": rule, "modelled": modelled, "obs": ob})
 
+    baccepted = {}
+    for cid, (cpu, t, gap, src) in bmeta.items():
+        rec = byid[cid]
+        if rec.get("died"):
+            chk.report("src:" + src, "died on\n" + src, dict(source=src, observed=rec))
+            continue
+        if rec["r1"] != 0 or rec["r2"] != 0:
+            continue            # out of range, or a form that does not take a plain address: C02 speaks about accepted programs
+        pr = probes(rec, bprog, cpuinfo[cpu]["endian"] == 1)
+        if pr is None:
+            continue
+        baccepted[cpu] = baccepted.get(cpu, 0) + 1
+        events.append({"id": cid, "prog": bprog, "rule": dict(set=[], lt=0, short=0, long=0), "modelled": False, "obs": {"k": "ok", "probes": pr}})
     oks = [e for e in events if e["obs"]["k"] == "ok" and not any(s["k"] == "scope" for s in e["prog"])]
     canaries = set()
     for e in rnd.sample(oks, min(24, len(oks))):
@@ -162,6 +203,12 @@ def run(tier, seed):
     stale = 0
     for cid, v in sorted(bad.items()):
         if cid in canaries:
+            continue
+        if cid in bmeta:
+            cpu, t, gap, src = bmeta[cid]
+            chk.report("TwoPass.BranchForm@%s:%s" % (cpu, t),
+                       "labels %s are placed in pass 2 where they were not bound in pass 1 (.%s, `%s` over a gap of %d bytes)\n%s" % (v["drift"], cpu, t, gap, src),
+                       dict(source=src, cpu=cpu, drift=v.get("drift"), probes=[e for e in events if e["id"] == cid][0]["obs"]["probes"]))
             continue
         i, cpu, big, rule, modelled, src = meta[cid]
         payload = dict(source=src, cpu=cpu, drift=v.get("drift"), predicted=v.get("predicted"),
@@ -195,7 +242,7 @@ def run(tier, seed):
 
     weak = [c[0] for c in CARRIERS if accepted.get(c[0], 0) < 50]
     chk.cov.update(dict(
-        evaluations=len(cases),
+        evaluations=len(cases), branch_family=dict(programs=len(bmeta), accepted_per_cpu=baccepted),
         distinct_nontrivial=len([p for p in progs if sum(1 for s in p if s["k"] in ("insn", "label")) >= 2]),
         rule="TLC enumerates every program of up to 3 statements over a 24-statement alphabet and of up to 4 (thorough 5) "
              "over an 11-statement alphabet with scopes (labels, "
